@@ -525,7 +525,8 @@ func getPrior(current, high int, flags []bool) int {
 func SimplifyPath64(path Path64, epsilon float64, isClosedPath bool) Path64 {
 	l := len(path)
 	high := l - 1
-	epsSq := sqr(epsilon)
+	// end points of an open path carry MaxFloat64 below: epsilon squared must stay under it
+	epsSq := math.Min(sqr(epsilon), math.Nextafter(math.MaxFloat64, 0))
 
 	if l < 4 {
 		return path
@@ -606,7 +607,8 @@ func SimplifyPaths64(paths Paths64, epsilon float64, isClosedPaths bool) Paths64
 func SimplifyPathD(path PathD, epsilon float64, isClosedPath bool) PathD {
 	length := len(path)
 	high := length - 1
-	epsSq := sqr(epsilon)
+	// end points of an open path carry MaxFloat64 below: epsilon squared must stay under it
+	epsSq := math.Min(sqr(epsilon), math.Nextafter(math.MaxFloat64, 0))
 
 	if length < 4 {
 		return path
